@@ -159,7 +159,7 @@ def r4(ctx):
         yield VIOL("C17-R4", "validate_signature/mismatch-exit-count", "expected exactly one SignatureDoesNotMatch construction in validate_signature, found %d" % len(errs), where=loc(b.j["span"]))
         return
     sl = b.slice_op(errs[0][2]["rv"]["ops"][0])
-    nonconst = [c for c in sl.callee_names() if not re.search(r"ToString::to_string$|String::from$|Into::into$|to_owned$", c)]
+    nonconst = [c for c in sl.callee_names() if not re.search(r"ToString::to_string$|String::from$|convert::From::from$|Into::into$|to_owned$|ToOwned::to_owned$", c)]
     if sl.params or nonconst or 1 in sl.locals:
         yield VIOL("C17-R4", "validate_signature/mismatch-message", "mismatch message is computed from run-time data (%s)" % (nonconst or "parameters"), where=b.span_of_block(errs[0][0]))
     else:
